@@ -254,6 +254,8 @@ var lexPieces = []string{
 	"'\\u0041'", "\"\\u0027\"", "0.5.5", "0..5", "00.1.2",
 	"\xa0", "\x85", " \xa0", "\n\x85", "\ufeff", "00e5", "000e-3", "00E0", "0.0e5", "00.5e1", "0e5",
 	"1e0002147483647", "1e-0002147483647", "1e00000000309", "1e000000", "2e+0000000000000000001",
+	"len_src_len547 src_len_rows68", "rows_evt_src821 len_addr_len723", "src_path_time86 flag_src_evt854", "name_name_rows0 size_src_len421", "dst_src_host256 read_read_cost8", "evt_src_name591 code_src_len575",
+	"0x1F\uff10", "0x\uff21", "\uff10", "1\uff10", "'\\\u016e'", "\"\\\U0001f46e\"", "'\\\u0174x\\\u2074'", "`\\\u016e`", "h'abc", "H\"abc", "h'a'", "@'a'", "1e- ", "1e+x", "1E-|", "x between (1 .. 2)", "1..2", "a..b",
 	"'12.5'", "\"1e3\"", "'7'", "'0x10'", "\"Infinity\"", "'NaN'", "'-0'",
 	"// c\u2028d\n", "// c\u0085| count\n", "//\u2029x", "// \r x\n",
 	"\ufffd", "\ufffc", "\ufffe", "a\ufffd", " \ufffd ", "\u2028", "\u2029", "\u0085", "\u3000", "\u200b", "\u00ad", "\xc0\xaf", "\xed\xa0\x80", "\xf4\x90\x80\x80", "e\u0301", "'e\u0301'", "`\u2028`",
@@ -291,6 +293,44 @@ func genLexString(t *rapid.T) string {
 		}
 	}
 	return sb.String()
+}
+
+// TestC09SourceChars: every pair and triple of the characters the scanner's
+// own source mentions, followed by the endings of the token kinds (an open
+// string, a closed string, digits, a name, a comment): whatever letter a change
+// gives a meaning to in front of a quote or a digit is tried here.
+func TestC09SourceChars(t *testing.T) {
+	st := harn.NewStats(env, "sourcechars")
+	defer st.Flush()
+	chars := sourceChars()
+	for _, c := range []string{"h", "H", "r", "b", "u", "@", "$", "_", "\u00e9"} {
+		chars = append(chars, c)
+	}
+	tails := []string{"", "'abc", "\"abc", "'a'", "\"a\" x", "`a`", "`a", "1", "0x1", ".5", "a", "//x\ny", "- ", "-1", "+x", "e5", " "}
+	st.SetExhaustive(fmt.Sprintf("every string c1 c2 tail and 1 c1 c2 tail with c1, c2 among the %d characters that occur as rune literals in parser/lex.go (plus a few letters) and tail among %q", len(chars), tails))
+	if len(chars) < 15 {
+		t.Fatalf("harness: only %d rune literals found in %s/parser/lex.go", len(chars), repoDir())
+	}
+	idx := 0
+	for _, c1 := range chars {
+		for _, c2 := range append([]string{""}, chars...) {
+			idx++
+			if idx%env.NShards != env.Shard {
+				continue
+			}
+			for _, tail := range tails {
+				for _, head := range []string{"", "1", "x "} {
+					s := head + c1 + c2 + tail
+					st.Eval()
+					st.NonTrivialExact(1)
+					if msg := checkLex(s); msg != "" {
+						st.Violation(t, "C09", "lex", mkStrCase(s), "%+q: %s", s, msg)
+						return
+					}
+				}
+			}
+		}
+	}
 }
 
 func TestC09Random(t *testing.T) {
